@@ -329,6 +329,7 @@ pub fn direct_rayon_tiny(rep: &mut Report) {
             }
         }
     }
+    minmax_special(1, rep);
     rep.sample(json!({"family": "rayon tiny", "inputs": ["[]", "[0.1]", "[-3]", "[7.5e29]"], "threads": [1, 2, 4, 16], "adaptors": ["none", "filter (padding right / left)", "chain(empty)"]}));
 }
 
@@ -376,8 +377,60 @@ fn constant_streams(seed: u64, rep: &mut Report) {
     }
 }
 
+/// Min / Max from parallel iterators over the special values (NaN of both signs, +-inf, signed zeros):
+/// the extreme of the non-NaN items, +inf / -inf if there is none - in particular for inputs that are
+/// NaN throughout, where a reduction without a neutral element has nothing to absorb the NaN
+fn minmax_special(seed: u64, rep: &mut Report) {
+    let mut rng = Xoshiro256PlusPlus::seed_from_u64(seed ^ 0x6e616e);
+    let toks = [f64::NAN, -f64::NAN, f64::NEG_INFINITY, f64::INFINITY, -0.0, 0.0, 1.5, -2.5, 1.0e300, -1.0e300];
+    let mut inputs: Vec<Vec<f64>> = Vec::new();
+    for n in [1usize, 2, 3, 5, 64, 1000] {
+        inputs.push(vec![f64::NAN; n]);
+        inputs.push((0..n).map(|i| if i % 2 == 0 { f64::NAN } else { -f64::NAN }).collect());
+        inputs.push((0..n).map(|_| toks[rng.random_range(0..toks.len())]).collect());
+        inputs.push((0..n).map(|i| if i == n / 2 { -7.25 } else { f64::NAN }).collect());
+    }
+    let same = |a: f64, b: f64| a == b || (a.is_nan() && b.is_nan());
+    for xs in &inputs {
+        let want_min = xs.iter().copied().filter(|x| !x.is_nan()).fold(f64::INFINITY, f64::min);
+        let want_max = xs.iter().copied().filter(|x| !x.is_nan()).fold(f64::NEG_INFINITY, f64::max);
+        for &threads in &[1usize, 3, 16] {
+            let p = pool(threads);
+            for max_len in [usize::MAX, 1, 2] {
+                for by_ref in [true, false] {
+                    let e = embedding("E0");
+                    let cfg = json!({"special values": xs.iter().take(12).map(|x| format!("{x}")).collect::<Vec<_>>(), "n": xs.len(), "threads": threads, "by_ref": by_ref,
+                                     "max_len": if max_len == usize::MAX { Value::Null } else { json!(max_len) }});
+                    rep.behaviours += 1;
+                    rep.nontrivial.insert(hash_str(&cfg.to_string()));
+                    let r = std::panic::catch_unwind(std::panic::AssertUnwindSafe(|| p.install(|| -> (Min, Max) {
+                        if by_ref {
+                            (xs.par_iter().with_max_len(max_len).collect(), xs.par_iter().with_max_len(max_len).collect())
+                        } else {
+                            (xs.clone().into_par_iter().with_max_len(max_len).collect(), xs.clone().into_par_iter().with_max_len(max_len).collect())
+                        }
+                    })));
+                    rep.evaluations += 2;
+                    match r {
+                        Err(_) => viol(rep, "Min/Max", &e, "panic", "parallel collection of special values panicked".into(), cfg.clone()),
+                        Ok((mn, mx)) => {
+                            if !same(mn.min(), want_min) {
+                                viol(rep, "Min", &e, "min", format!("parallel min {} but the smallest non-NaN item is {}", fmt_f(mn.min()), fmt_f(want_min)), cfg.clone());
+                            }
+                            if !same(mx.max(), want_max) {
+                                viol(rep, "Max", &e, "max", format!("parallel max {} but the largest non-NaN item is {}", fmt_f(mx.max()), fmt_f(want_max)), cfg.clone());
+                            }
+                        }
+                    }
+                }
+            }
+        }
+    }
+}
+
 pub fn direct_rayon(seed: u64, max_n: usize, reps: usize, rep: &mut Report) {
     constant_streams(seed, rep);
+    minmax_special(seed, rep);
     let mut rng = Xoshiro256PlusPlus::seed_from_u64(seed);
     let alphabet = [-3i64, -1, 0, 2, 3];
     // 150,000: both halves of the top-level join hold more than 2^16 items
